@@ -19,7 +19,9 @@ from ropt.plugins.optimizer.base import OptimizerPlugin
 
 from . import backend
 
-_REAL = {"minimize": scipy_plugin.minimize, "differential_evolution": scipy_plugin.differential_evolution}
+import scipy.optimize as _so
+
+_REAL = {"minimize": _so.minimize, "differential_evolution": _so.differential_evolution}
 CURRENT: list[Any] = []  # stack of FakeState (one per running simulated optimization)
 
 
@@ -39,13 +41,25 @@ class FakeState:
 
 
 def install() -> None:
-    scipy_plugin.minimize = fake_minimize
-    scipy_plugin.differential_evolution = fake_differential_evolution
+    # the names the plug-in module imported, and the attributes of scipy.optimize itself (so that a
+    # plug-in written as `scipy.optimize.minimize(...)` meets the same seam)
+    import scipy.optimize as so
+
+    for mod in (scipy_plugin, so):
+        if hasattr(mod, "minimize"):
+            mod.minimize = fake_minimize
+        if hasattr(mod, "differential_evolution"):
+            mod.differential_evolution = fake_differential_evolution
 
 
 def uninstall() -> None:
-    scipy_plugin.minimize = _REAL["minimize"]
-    scipy_plugin.differential_evolution = _REAL["differential_evolution"]
+    import scipy.optimize as so
+
+    for mod in (scipy_plugin, so):
+        if hasattr(mod, "minimize"):
+            mod.minimize = _REAL["minimize"]
+        if hasattr(mod, "differential_evolution"):
+            mod.differential_evolution = _REAL["differential_evolution"]
 
 
 def _point(state: FakeState, pid: int, x0: np.ndarray) -> np.ndarray:
